@@ -1231,6 +1231,12 @@ fn get_ns_idx_by_prefix(
         Some(prefix)
     };
 
+    // The prefix 'xml' is by definition bound to the namespace name
+    // http://www.w3.org/XML/1998/namespace, which is always element 0.
+    if prefix == NS_XML_PREFIX {
+        return Ok(Some(NamespaceIdx(0)));
+    }
+
     let idx = doc.namespaces.tree_order[namespaces.to_urange()]
         .iter()
         .find(|idx| doc.namespaces.get(**idx).name == prefix_opt);
